@@ -378,7 +378,14 @@ var $select = comms => {
 
     var entries = [];
     var thisGoroutine = $curGoroutine;
-    var f = { $blk() { return this.selection; } };
+    var f = {
+        $blk() {
+            if (this.closedDuringSend) {
+                $throwRuntimeError("send on closed channel");
+            }
+            return this.selection;
+        }
+    };
     var removeFromQueues = () => {
         for (var i = 0; i < entries.length; i++) {
             var entry = entries[i];
@@ -403,10 +410,9 @@ var $select = comms => {
                     comm[0].$recvQueue.push(queueEntry);
                     break;
                 case 2: /* send */
-                    var queueEntry = () => {
-                        if (comm[0].$closed) {
-                            $throwRuntimeError("send on closed channel");
-                        }
+                    var queueEntry = closed => {
+                        /* closing the channel wakes the sender up, which then panics itself */
+                        f.closedDuringSend = closed;
                         f.selection = [i];
                         removeFromQueues();
                         $schedule(thisGoroutine);
